@@ -1,5 +1,6 @@
 CONSTANTS
   EmitBehaviours = TRUE
+  Consumer = FALSE
 INIT Init
 NEXT Next
-INVARIANTS UniqueEnd MachineIsGrammar NoFaultNoError FaultIsReported RunAgrees Out
+INVARIANTS UniqueEnd MachineIsGrammar NoFaultNoError FaultIsReported RunAgrees Handoff Out
